@@ -5,7 +5,7 @@
    before the pipe consumer, all in different subgraphs) is what the real partitioner produced
    for the program at hand; that it always does so is engine E6's property (C17/C18). *)
 From Coq Require Import List NArith Bool.
-From HV Require Import Dfir.Model Dfir.ModelTick Dfir.PTick Dfir.PFrame.
+From HV Require Import Dfir.Model Dfir.ModelTick Dfir.ModelFlat Dfir.ModelRefs Dfir.PTick Dfir.PFrame Dfir.PRefs.
 Import ListNotations.
 
 (* a block leaves alone the `buf` of every handoff it neither sends to, nor receives from
@@ -42,6 +42,24 @@ Theorem C25_slot_semantics :
               (let w1 := set_buf w (update h slot' (w_buf w)) in if bad then set_panic w1 true else w1, loc).
 Proof. exact run_node_ref. Qed.
 Print Assumptions C25_slot_semantics.
+
+(* the real schedule.  [chain_ok groups h 0 0 sgs] is an executable check evaluated, for every C25
+   program without loop blocks, on the blocks lowered from the real meta_graph() with the access-group
+   numbers read from the real graph: along the schedule the slot's producer comes first, then the
+   referring blocks with non-decreasing access group, then the pipe consumer, and every other block
+   passes the executable frame test (the clause-6 shape of engine E6's WellFormed, evaluated here on
+   this engine's lowered program; E6 evaluates its own WellFormed_b on the same real outputs, C18).
+   On a schedule that passes, the slot content a block finds is exactly what the previous block
+   using the slot left, whatever ran in between. *)
+Theorem C25_real_schedule :
+  (forall sg h, buf_free_b sg h = true -> buf_free sg h) /\
+  (forall ext groups h sgs A P M rest w,
+     chain_ok groups h 0 0 sgs = true ->
+     sgs = A ++ P :: M ++ rest ->
+     (forall sg, In sg M -> role sg h = 0%N) ->
+     get h (w_buf (run_sgs ext (A ++ P :: M) w)) = get h (w_buf (run_sg ext P (run_sgs ext A w)))).
+Proof. split; [exact buf_free_b_sound | exact settled_on_schedule]. Qed.
+Print Assumptions C25_real_schedule.
 
 (* non-vacuity: producer block, then a mutating group, then a reading group, then the consumer *)
 Example C25_example :
